@@ -49,7 +49,7 @@ def backend_outcomes(api_files, tmp, tag):
 
 def run_shard(tier, seed, idx, n, res, tmp):
     b = budget(tier)
-    for ci in range(idx, b['models'], n):
+    for ci in common.case_range(idx, b['models'], n, res):
         cs = common.case_seed(PROPERTY, seed, ci)
         rnd = random.Random(cs)
         prof = gm.make_profile(cfg_style='dropbox' if ci % 2 else None, p_keyword_doc=0.08,
